@@ -276,3 +276,48 @@ func ZZ_C05_batch_split() {
 	zzAssert(ok && pos == n, "batch-split.partition-in-order")
 	zzAssert(len(bs) == (n+limit-1)/limit, "batch-split.count")
 }
+
+// ZZ_C05_cache_ts_back: the same with the timestamp moved backwards: the snapshot first reads (and
+// caches) the newer versions at ts 200, then is set to ts 100 where the older versions are the truth.
+func ZZ_C05_cache_ts_back() {
+	st := zzFixedStore() // rows committed at 50; the store answers by request version
+	newer := &zzStore{ts: 200}
+	nNew := 0
+	for _, r := range st.rows {
+		r.newTS = 150
+		if zzBool("newdel") {
+			r.newVal = nil
+		} else {
+			r.newVal = zzBytesN("newval", 1)
+			nNew++
+		}
+		newer.rows = append(newer.rows, &zzRow{key: r.key, val: r.newVal}) // the model's truth at 200
+	}
+	kvs := zzNewKVStore(st)
+	defer kvs.close()
+	snap := NewTiKVSnapshot(kvs, 200, 0)
+	keys := [][]byte{[]byte("b"), []byte("c"), []byte("a"), []byte("b\x00")}
+	if zzBool("viabatch") {
+		m, err := snap.BatchGet(context.Background(), keys)
+		zzAssert(err == nil && zzMapIs(newer, m, keys, nNew), "cache-ts-back.new-batchget")
+	} else {
+		ok := true
+		for _, k := range keys {
+			ok = zzAnd(ok, zzGetIs(snap, k, newer.modelGet(k)))
+		}
+		zzAssert(ok, "cache-ts-back.new-get")
+	}
+	zzAssert(snap.SnapCacheSize() > 0, "cache-ts-back.cache-filled")
+	// move the snapshot backwards: the older versions are the truth again
+	snap.SetSnapshotTS(100)
+	if zzBool("batchafter") {
+		m, err := snap.BatchGet(context.Background(), keys)
+		zzAssert(err == nil && zzMapIs(st, m, keys, 3), "cache-ts-back.old-batchget")
+	} else {
+		ok := true
+		for _, k := range keys {
+			ok = zzAnd(ok, zzGetIs(snap, k, st.modelGet(k)))
+		}
+		zzAssert(ok, "cache-ts-back.old-get")
+	}
+}
